@@ -66,6 +66,8 @@ class LoaderTable:
     def _extract(self):
         fn = self.fn
         localdefs = {n.name: n for n in fn.body if isinstance(n, ast.FunctionDef)}
+        self.localdefs = localdefs
+        self.moduledefs = {n.name: n for n in self.src.tree(CAT).body if isinstance(n, ast.FunctionDef)}
         pat = None
         for s in fn.body:
             if isinstance(s, ast.If) and unparse(s.test) == 'passthrough':
@@ -135,6 +137,63 @@ class _LoaderEval:
         self.impure = []
         self.promo = []          # integer-overflow risks: int16 raw data combined with a scalar before promotion to float
         self.pm = self.praw = self.phalos = None
+        self.alias = {}          # local name -> the raw / halos column it is a view of
+        self.depth = 0
+
+    def origin(self, n):
+        """The caller-owned column an expression is (a view of), or None for a fresh array."""
+        if isinstance(n, ast.Name):
+            return self.alias.get(n.id)
+        if isinstance(n, ast.Subscript):
+            b = n.value
+            if isinstance(b, ast.Name) and b.id in (self.praw, self.phalos) and b.id not in self.env:
+                return unparse(n)
+            return self.origin(b)
+        if isinstance(n, ast.Call) and isinstance(n.func, ast.Attribute) and n.func.attr in ('reshape', 'view', 'ravel', 'squeeze', 'T'):
+            return self.origin(n.func.value)
+        if isinstance(n, ast.Call) and dotted(n.func) in ('np.asarray', 'np.atleast_2d', 'np.atleast_1d') and n.args:
+            return self.origin(n.args[0])
+        if isinstance(n, ast.Attribute) and n.attr == 'T':
+            return self.origin(n.value)
+        return None
+
+    def inline(self, fdef, call):
+        a = fdef.args
+        if a.vararg or a.kwarg or a.kwonlyargs or self.depth >= 3:
+            return None
+        params = [x.arg for x in a.posonlyargs + a.args]
+        if len(call.args) > len(params) or any(isinstance(x, ast.Starred) for x in call.args):
+            return None
+        vals, al = {}, {}
+        for p_, x in zip(params, call.args):
+            vals[p_] = self.ev(x)
+            o = self.origin(x)
+            if o:
+                al[p_] = o
+        for k in call.keywords:
+            if k.arg not in params or k.arg in vals:
+                return None
+            vals[k.arg] = self.ev(k.value)
+            o = self.origin(k.value)
+            if o:
+                al[k.arg] = o
+        ndef = len(a.defaults)
+        for p_, d in zip(params[len(params) - ndef:], a.defaults):
+            if p_ not in vals:
+                vals[p_] = self.ev(d)
+        if set(vals) != set(params):
+            return None
+        saved = (self.env, self.alias, self.pm, self.praw, self.phalos)
+        # the helper is defined outside the loader: it sees its own parameters only
+        self.env, self.alias = vals, al
+        self.pm = self.praw = self.phalos = None
+        self.depth += 1
+        try:
+            r = self.run_body(fdef.body)
+        finally:
+            self.depth -= 1
+            self.env, self.alias, self.pm, self.praw, self.phalos = saved
+        return (r,)
 
     def bind_params(self, params):
         if len(params) != 3:
@@ -198,6 +257,13 @@ class _LoaderEval:
             t = s.targets[0]
             if isinstance(t, ast.Name):
                 self.env[t.id] = v
+                o = self.origin(s.value)
+                if o:
+                    self.alias[t.id] = o
+                else:
+                    self.alias.pop(t.id, None)
+            elif isinstance(t, ast.Subscript) and self.origin(t.value):
+                self.impure.append(f'writes into {self.origin(t.value)} ({unparse(t)} = ...)')
             elif isinstance(t, ast.Tuple) and isinstance(v, tuple) and len(v) == len(t.elts):
                 for e, x in zip(t.elts, v):
                     if isinstance(e, ast.Name):
@@ -223,6 +289,16 @@ class _LoaderEval:
                     r = self.stmt(b, True)
                     if r is not None:
                         return r
+            return None
+        if isinstance(s, ast.AugAssign):
+            o = self.origin(s.target)
+            if o:
+                self.impure.append(f'in-place update of {o} ({unparse(s)}): the caller\'s column is changed for every later reader')
+            if isinstance(s.target, ast.Name):
+                fake = ast.BinOp(left=ast.Name(id=s.target.id, ctx=ast.Load()), op=s.op, right=s.value)
+                ast.copy_location(fake, s)
+                ast.fix_missing_locations(fake)
+                self.env[s.target.id] = self.ev(fake)
             return None
         if isinstance(s, ast.Expr):
             self.ev(s.value)
@@ -358,6 +434,14 @@ class _LoaderEval:
                 a = self.ev(n.args[0])
                 self.frees.add('_unpack_euler16')
                 return tuple(Opq(f'euler16.{w}({_s(a)})') for w in ('minor', 'middle', 'major'))
+            fdef = None
+            if isinstance(n.func, ast.Name) and n.func.id not in self.env:
+                fdef = self.table.localdefs.get(n.func.id) or self.table.moduledefs.get(n.func.id)
+            if fdef is not None and not fdef.decorator_list:
+                r = self.inline(fdef, n)
+                if r is not None:
+                    self.frees.add(n.func.id)
+                    return r[0] if r[0] is not None else Opq(f'call {cn}')
             args = [self.ev(a) for a in n.args]
             for k in n.keywords:
                 self.ev(k.value)
